@@ -23,7 +23,6 @@
 package actor
 
 import (
-	"sync"
 	"sync/atomic"
 )
 
@@ -44,17 +43,16 @@ type segment struct {
 	data [segmentSize]atomic.Pointer[ReceiveContext]
 }
 
-var segmentPool = sync.Pool{New: func() any { return new(segment) }}
-
+// newSegment allocates an empty segment.
+//
+// Segments are deliberately not recycled through a pool: a producer may still
+// hold a drained segment it loaded as the tail, and it relies on that
+// segment's writeIdx and next link staying as they are to find its way to the
+// current tail. Re-initialising a segment that is still referenced let such a
+// producer write into, or link a segment onto, a segment that is back in use,
+// which silently lost messages.
 func newSegment() *segment {
-	seg := segmentPool.Get().(*segment)
-	seg.writeIdx.Store(0)
-	seg.deqIdx.Store(0)
-	seg.next.Store(nil)
-	for i := range seg.data {
-		seg.data[i].Store(nil)
-	}
-	return seg
+	return new(segment)
 }
 
 // UnboundedSegmentedMailbox is an unbounded, lock‑free MPSC mailbox that
@@ -193,10 +191,14 @@ func (m *UnboundedSegmentedMailbox) Dequeue() *ReceiveContext {
 		if next == nil {
 			return nil
 		}
-		// recycle old head
+		if deq < segmentSize {
+			// producers filled the remaining slots and linked the next
+			// segment after writeIdx was read above: the segment is not
+			// drained yet, look at it again instead of skipping them
+			continue
+		}
+		// drop the old head; it is left untouched for late producers (see newSegment)
 		m.head.Store(next)
-		seg.next.Store(nil)
-		segmentPool.Put(seg)
 		seg = next
 	}
 }
